@@ -13,10 +13,15 @@
      a block's processing changes only the cells of that block);
    [c06_indexes_follow]: a replica's indexes are exact whenever its values are (C03 holds of the
      replica's commits, which are commits).
+   [c06_replay_block] / [c06_replay_stream]: the whole statement for one transaction - a replica
+     holding the same data (fill, Count, every column, every computed column, key table) as the
+     primary before a commit, fed the records the commit emitted ([c06_emitted_records]) in
+     emission order, holds the same data as the primary after it; by induction over transactions,
+     after any history.  Hypotheses: Count exact (C11) and the key column does not merge.
    The defect this work found and repaired (D25): Replay used to re-apply the other blocks of a
    multi-block transaction when fed cloned buffers; the model's [replay] applies one block. *)
 From stdpp Require Import gmap list sorting.
-From ColumnV Require Import Bytes Store StoreProofs.
+From ColumnV Require Import Bytes Store StoreProofs StoreProofs2 StoreProofs5.
 From ColumnV Require Conc.
 Local Open Scope N_scope.
 
@@ -44,3 +49,20 @@ Print Assumptions c06_stream_order_is_apply_order.
 Theorem c06_indexes_follow : ∀ s t b, wf_row t → IdxOK s → IdxOK (commit_block s t b).
 Proof. exact commit_block_idx_ok. Qed.
 Print Assumptions c06_indexes_follow.
+
+Theorem c06_replay_block : ∀ s t b r,
+  same_data r s → Quiescent s → pk_plain s →
+  same_data (replay r (block_rec s t b)) (commit_block s t b).
+Proof. intros. by apply replay_block_same_data. Qed.
+Print Assumptions c06_replay_block.
+
+Theorem c06_replay_stream : ∀ bs r s t,
+  same_data r s → Quiescent s → pk_plain s →
+  same_data (foldl replay r (block_recs s t bs)) (commit_blocks s t bs).
+Proof. exact replay_stream_same_data. Qed.
+Print Assumptions c06_replay_stream.
+
+Theorem c06_emitted_records : ∀ bs s t,
+  emits s t = true → emitted (commit_blocks s t bs) = emitted s ++ block_recs s t bs.
+Proof. exact emitted_is_block_recs. Qed.
+Print Assumptions c06_emitted_records.
